@@ -40,7 +40,7 @@ impl Tamper {
             Tamper::Signal(_, how) => format!("signal-{how}"),
             Tamper::Length(_, _, how) => format!("declared-length-{how}"),
             Tamper::ProofBit(_) => "proof-bit-flip".into(),
-            Tamper::Tree(k) => format!("tree-{}", ["other-leaf-set", "member-leaf-deleted", "leaf-appended", "reset", "changed-and-changed-back"][*k as usize]),
+            Tamper::Tree(k) => format!("tree-{}", ["other-leaf-set", "member-leaf-deleted", "leaf-appended", "reset", "changed-and-changed-back", "member-removed-by-a-batch", "member-removed-by-a-batch-that-repeats-an-empty-position", "member-leaf-overwritten-with-the-default", "member-removed-by-a-batch-listing-it-twice"][*k as usize]),
             Tamper::Roots(_, how) => format!("root-set-{how}"),
             Tamper::RootsFragment(lo, hi) => format!("root-buffer-foreign-root-then-own-bytes-{lo}..{hi}"),
             Tamper::Bits(k, i, j, _) => format!("{}-{}-flipped", ["root", "ext", "x", "y", "nullifier"][*k], if i == j { "one-bit" } else { "two-bits" }),
@@ -179,6 +179,12 @@ fn tampers(r: &Req, msg: &[u8], thorough: bool, base_idx: usize) -> Vec<Tamper> 
     }
     // the verifier's tree changes and changes back: the message is acceptable again
     t.push(Tamper::Tree(4));
+    // the member removed through the other removal paths (batch removal indices are single bytes)
+    if r.index >= 2 && r.index < 256 {
+        for k in [5u8, 6, 7, 8] {
+            t.push(Tamper::Tree(k));
+        }
+    }
     // bit-level alterations of the public values. First base message: every single bit; every pair of bits that
     // sit in two different 64-bit limbs at bit offsets at most 8 apart (quick) / every pair of bits (thorough).
     // Other base messages (thorough): the limb-pair family.
@@ -311,16 +317,32 @@ impl C02 {
                     }
                     return out;
                 }
+                // an empty position below the member (never the member's neighbour, which some contexts write)
+                let empty_below = (0..r.index).rev().find(|i| *i != (r.index ^ 1) && {
+                    let mut b = Cursor::new(Vec::<u8>::new());
+                    rln.get_leaf(*i as usize, &mut b).is_ok() && b.get_ref().iter().all(|x| *x == 0)
+                });
                 let res = match k {
                     0 => rln.set_leaf(other as usize, rd(codec::fr(&big(99)))),
                     1 => rln.delete_leaf(r.index as usize),
                     2 => rln.set_next_leaf(rd(codec::fr(&big(98)))),
+                    5 => rln.atomic_operation(0, rd(codec::vec_fr(&[])), rd(codec::vec_u8(&[r.index as u8]))),
+                    6 => match empty_below {
+                        Some(e) => rln.atomic_operation(0, rd(codec::vec_fr(&[])), rd(codec::vec_u8(&[e as u8, e as u8, r.index as u8]))),
+                        None => rln.delete_leaf(r.index as usize),
+                    },
+                    7 => rln.set_leaf(r.index as usize, rd(codec::fr(&big(0)))),
+                    8 => rln.atomic_operation(0, rd(codec::vec_fr(&[])), rd(codec::vec_u8(&[r.index as u8, r.index as u8]))),
                     _ => rln.set_tree(DEPTH),
                 };
                 let input = build(&m, &signal, &declared);
                 let mut nr = Cursor::new(Vec::<u8>::new());
                 let _ = rln.get_root(&mut nr);
                 let new_root = nr.into_inner();
+                if res.is_ok() && new_root == own_root && matches!(k, 1 | 5 | 6 | 7 | 8) {
+                    // the removal was acknowledged: the sender is no member any more, whatever the tree did internally
+                    checks.push(("verify_rln_proof[member removed]".into(), v_tree(rln, &input), false));
+                }
                 if res.is_ok() && new_root != own_root {
                     checks.push(("verify_rln_proof".into(), v_tree(rln, &input), false));
                     checks.push(("verify_with_roots[new tree root]".into(), v_roots(rln, &input, &new_root), false));
@@ -449,7 +471,7 @@ impl Prop for C02 {
         ev.set("tamper_kinds", json!(kinds));
         ev.set("exhaustive", json!(true));
         ev.set("deviation_bound", json!(1));
-        ev.set("rule", json!("for each base message (spread over index/secret/limit/signal/tree-context boundaries): every single alteration out of {each of the 5 public values -> v+1, v-1, 0, 1, p-1, each other field's value; signal -> first/last bit flipped, byte appended/dropped, emptied, replaced; declared length -> len-1, len+1 with extended buffer, 0; every single-bit flip of the 128 proof bytes; for the first base message every single bit of every public value and every pair of bits in two different 64-bit limbs at offsets <= 8 apart (quick) / every pair of bits (thorough), thorough also the limb-pair family on every other base message; each chunk of alterations is preceded on its thread by a verification of the untouched message; verifier tree changed after proving in 4 ways; 6 root sets}; each altered message goes to every verifier the alteration concerns; altered => never true, positive controls (untouched, own root in the set, old root after the tree changed, empty set) => true; distinct_nontrivial = alterations other than 'untouched'"));
+        ev.set("rule", json!("for each base message (spread over index/secret/limit/signal/tree-context boundaries): every single alteration out of {each of the 5 public values -> v+1, v-1, 0, 1, p-1, each other field's value; signal -> first/last bit flipped, byte appended/dropped, emptied, replaced; declared length -> len-1, len+1 with extended buffer, 0; every single-bit flip of the 128 proof bytes; for the first base message every single bit of every public value and every pair of bits in two different 64-bit limbs at offsets <= 8 apart (quick) / every pair of bits (thorough), thorough also the limb-pair family on every other base message; each chunk of alterations is preceded on its thread by a verification of the untouched message; verifier tree changed after proving (another leaf set, member deleted / removed by a batch / by a batch with repeated positions / overwritten with the default, append, reset); 6 root sets}; each altered message goes to every verifier the alteration concerns; altered => never true, positive controls (untouched, own root in the set, old root after the tree changed, empty set) => true; distinct_nontrivial = alterations other than 'untouched'"));
         ev.sample(json!({"base": bases[0].to_json(), "tamper": Tamper::Value(3, big(1), "one".into()).to_json()}));
         ev.sample(json!({"base": bases[1].to_json(), "tamper": Tamper::ProofBit(517).to_json()}));
         ev.sample(json!({"base": bases[2].to_json(), "tamper": Tamper::Tree(1).to_json()}));
